@@ -45,7 +45,9 @@ func (g *gen) path(d int, allowPred bool) *xp.Path {
 func (g *gen) operand(d int, allowPred bool) *xp.E {
 	switch g.pick(6, "operand") {
 	case 0:
-		return xp.Num([]string{"1", "2", "3", "0.5", "10", ".5", "7."}[g.pick(7, "num")])
+		// the exponent forms are an extension of this implementation (pinned by its tests); they matter here because
+		// a '+' or '-' written tight against them must still be an operator
+		return xp.Num([]string{"1", "2", "3", "0.5", "10", ".5", "7.", "1e3", "2E2", "1.5e1", "12E0", ".5e1"}[g.pick(12, "num")])
 	case 1:
 		return xp.Lit([]string{"a", "", "1", "x y", "and", "-"}[g.pick(6, "lit")])
 	case 2:
